@@ -377,7 +377,7 @@ class JobContext(object):
             "solver_calls": st.solver_calls, "solver_time": round(st.solver_time, 3), "max_query": round(st.max_query, 3),
             "steps": st.steps, "unknown": st.unknown, "functions": st.functions, "patterns": sorted(st.patterns),
             "cross_done": self.cross_done, "cross_disagree": self.cross_disagree, "fresh_solver_calls": st.fresh_solver_calls,
-            "cuts": st.cuts,
+            "cuts": st.cuts, "on_demand": sorted(st.on_demand),
         }
 
 
@@ -586,6 +586,7 @@ def finish(prop, tier, seed, results, meta, wall, extra_coverage=None, extra_err
     tot = collections.Counter()
     covers = collections.Counter()
     functions = {}
+    on_demand = set()
     patterns = set()
     bounds = {}
     samples = []
@@ -612,6 +613,7 @@ def finish(prop, tier, seed, results, meta, wall, extra_coverage=None, extra_err
         for k, v in r["covers"].items():
             covers["%s:%s" % (hname, k)] += v
         functions.update(r["functions"])
+        on_demand.update(r.get("on_demand", []))
         patterns.update(r["patterns"])
         for k, v in r["bounds"].items():
             bounds.setdefault("%s/%s" % (hname, k), v)
@@ -673,6 +675,7 @@ def finish(prop, tier, seed, results, meta, wall, extra_coverage=None, extra_err
         "queries_redecided_by_fresh_nonincremental_solver": int(tot["fresh_solver_calls"]),
         "interpreted_ast_steps": int(tot["steps"]),
         "functions_encoded": sorted(functions),
+        "stdlib_functions_interpreted_on_demand": sorted(on_demand),
         "source_hashes": _hashes(set(functions.values())),
         "patterns_encoded": sorted(patterns),
         "bounds": bounds,
